@@ -6,6 +6,7 @@ import (
 	"encoding/hex"
 	"fmt"
 	sdk "github.com/pokt-network/posmint/types"
+	authexported "github.com/pokt-network/posmint/x/auth/exported"
 
 	"pgregory.net/rapid"
 
@@ -67,6 +68,12 @@ func (o *c11Oracle) after(ch *chain, ci *callInfo) *Violation {
 		if len(keys) == 0 {
 			return nil
 		}
+		// a transaction the harness knows to be forged (signed content changed afterwards, signature altered)
+		// cannot have passed the ante handler: not even its fee may be gone
+		if ci.Built != nil && ci.Built.Constructed && (ci.Built.ContentChanged || ci.Built.SigChanged) {
+			return violf("C11/forged-tx-changed-state", "%s: a transaction whose signed content or signature was altered after signing (mutation %q) was rejected with code %d but changed the state: %s",
+				where, ci.Tx.Mut, ci.Deliver.Code, rawDiff(before, after))
+		}
 		// the only trace allowed: a transaction that passed the ante handler has paid its fee
 		feeAddr := authtypes.NewModuleAddress(authtypes.FeeCollectorName)
 		collectorDelta := after.coinsOf(feeAddr).Sub(before.coinsOf(feeAddr))
@@ -91,6 +98,13 @@ func (o *c11Oracle) after(ch *chain, ci *callInfo) *Violation {
 		fee := feeCoins.AmountOf("upokt")
 		for _, k := range keys {
 			isSigner := k[0] == ch.app.keyAuth.Name() && k[1] == string(append([]byte{0x01}, signer...))
+			if isSigner {
+				// only the balance of the signer's account may differ (not its key, type or address)
+				if b, a := accountSansCoins(before.Raw[k[0]][k[1]]), accountSansCoins(after.Raw[k[0]][k[1]]); b != a {
+					return violf("C11/failed-handler-left-writes", "%s: %s tx failed with code %d after paying its fee, but the signer's account record changed beyond its balance: %s -> %s",
+						where, ci.Tx.Kind, ci.Deliver.Code, b, a)
+				}
+			}
 			isCollector := k[0] == ch.app.keyAuth.Name() && k[1] == string(append([]byte{0x01}, feeAddr...))
 			if !isSigner && !isCollector {
 				return violf("C11/failed-handler-left-writes", "%s: %s tx failed with code %d (%s) after paying its fee, but besides the fee it changed %s[%x]; all changes: %s",
@@ -105,6 +119,23 @@ func (o *c11Oracle) after(ch *chain, ci *callInfo) *Violation {
 		o.nt = true // ante-accepted, handler-level failure
 	}
 	return nil
+}
+
+// accountSansCoins renders a stored account record without its coins
+func accountSansCoins(raw []byte) string {
+	var acc authexported.Account
+	if len(raw) == 0 || simCdc.UnmarshalBinaryBare(raw, &acc) != nil || acc == nil {
+		return fmt.Sprintf("undecodable:%x", raw)
+	}
+	pk := ""
+	if acc.GetPubKey() != nil {
+		pk = hex.EncodeToString(acc.GetPubKey().RawBytes())
+	}
+	extra := ""
+	if m, ok := acc.(*authtypes.ModuleAccount); ok {
+		extra = fmt.Sprintf(" module=%s perms=%v", m.Name, m.Permissions)
+	}
+	return fmt.Sprintf("%T addr=%x pubkey=%s%s", acc, acc.GetAddress(), pk, extra)
 }
 
 func head(b []byte, n int) []byte {
